@@ -177,3 +177,8 @@ m('benign_pixel2index_rint', ['C17'], 'landscapes.py', '            indices_axis
   '            indices_axis = jnp.rint(coord).astype(dtype)\n            valid = jnp.logical_and(valid, jnp.logical_and(indices_axis >= 0, indices_axis <= dim - 1))', note=B)
 m('benign_composition_mv_loop', ['C01', 'C02', 'C03'], '_base/core.py', '        for operand in reversed(self.operands):\n            x = operand.mv(x)\n        return x',
   '        y = x\n        for i in range(len(self.operands) - 1, -1, -1):\n            y = self.operands[i].mv(y)\n        return y', note=B)
+m('revert_toeplitz_band_number', ['C09'], 'operators/toeplitz.py', '        band_number = 2 * band_values.shape[-1] - 1\n', '        band_number = 2 * band_values.size - 1\n')
+m('revert_inverse_transpose', ['C03'], '_base/core.py',
+  "        transposed = InverseOperator(self.operator.T)\n        object.__setattr__(transposed, 'config', self.config)\n        return transposed\n",
+  "        return TransposeOperator(self)\n")
+m('inverse_transpose_drops_config', ['C19'], '_base/core.py', "        object.__setattr__(transposed, 'config', self.config)\n", "", note='the transposed inverse would silently use the configuration active at transposition time; not covered by the C19 histories (no transpose event): documents a miss')
